@@ -127,7 +127,9 @@ func (e *ArEntry) Tarfile() (*tar.Reader, io.Closer, error) {
 	if !e.IsTarfile() {
 		return nil, nil, fmt.Errorf("%s appears to not be a tarfile", e.Name)
 	}
-	readCloser, err := DecompressorFor(filepath.Ext(e.Name))(e.Data)
+	/* read through a view of our own: e.Data is handed out to the user as
+	 * well (Deb.ArContent), and what is read there must not be missing here */
+	readCloser, err := DecompressorFor(filepath.Ext(e.Name))(io.NewSectionReader(e.Data, 0, e.Data.Size()))
 	if err != nil {
 		return nil, nil, err
 	}
